@@ -156,9 +156,11 @@ class Run:
         wall = time.time() - self.t0
         n = len(self.obls)
         fams: Dict[str, Dict[str, int]] = {}
+        fam_s: Dict[str, float] = {}
         for o in self.obls:
             f = fams.setdefault(o["family"] or "-", {})
             f[o["status"]] = f.get(o["status"], 0) + 1
+            fam_s[o["family"] or "-"] = round(fam_s.get(o["family"] or "-", 0.0) + o["solver_s"], 1)
         coverage: Dict[str, Any] = {
             "evaluations": max(n, 1) if n else 0,
             "distinct_nontrivial": len(self._nontrivial),
@@ -173,6 +175,7 @@ class Run:
             "violations": c.get(VIOLATION, 0),
             "harness_errors": c.get(HARNESS_ERROR, 0),
             "by_family": fams,
+            "solver_s_by_family": fam_s,
             "solver_s": round(self.solver_s, 2),
             "functions_encoded": self.functions_encoded,
             "bounds": jsonable(self.bounds),
